@@ -83,6 +83,15 @@ def gen(ctx):
             {"k": "uvarint_enc", "x": x}, f"kern uvarint_enc x={x}", {"out": enc.hex()},
             spec=f"spec uvarint_enc x={x}")
 
+    # ---- width_from_max_int: every power of two and its neighbours below 2^63, all small values
+    ws = set(range(0, 70 if quick else 5000))
+    for k in range(0, 63):
+        ws |= {(1 << k) - 1, 1 << k, (1 << k) + 1}
+    ws = {w for w in ws if 0 <= w < (1 << 63)}
+    for n in sorted(ws):
+        add("width_from_max_int", {"n_bits": n.bit_length()}, {"k": "width_from_max_int", "n": n},
+            f"kern width_from_max_int n={n}", {"val": n.bit_length()}, spec=f"spec width_for n={n}", nontrivial=n > 1)
+
     # ---- bit-packed runs: widths 0..32 x groups x patterns x capacities x item sizes
     groups = [0, 1, 2, 3] if quick else [0, 1, 2, 3, 4, 7, 8, 9, 16, 25]
     for w in range(0, 33):
@@ -316,7 +325,7 @@ def evaluate(ctx, report, cases):
             elif kernel == "delta":
                 mod = 1 << p["bits"]
                 spec_ok = [v % mod for v in sm.get("out", [])] == exp["out"] and sm.get("loc") == exp["spec_loc"]
-            elif kernel in ("uvarint", "uvarint_enc"):
+            elif kernel in ("uvarint", "uvarint_enc", "width_from_max_int"):
                 spec_ok = _eq(kernel, sm, exp, keys)
             if not spec_ok:
                 report.corr_break("spec-selfcheck", {"kernel": kernel, **p, "lean_spec": str(sm)[:300], "python_spec": str(exp)[:300]})
